@@ -157,14 +157,8 @@ def UnitDecl.name : UnitDecl → String
 
 theorem addUnit_known {reg : Registry} {st : Units.Store} {n : String} {es : List Units.UnitElem}
     {r : Registry × Units.Store} (h : Units.addUnit reg st n es = .ok r) : r.2.known = n :: st.known := by
-  unfold Units.addUnit at h
-  split at h
-  · cases h
-  · cases h
-  · cases h
-  · simp only at h
-    repeat' split at h
-    all_goals first | (simp only [Except.ok.injEq] at h; subst h; rfl) | cases h
+  obtain ⟨_, _, _, _, _, _, _, _, _, hr⟩ := Units.addUnit_ok h
+  rw [hr]
 
 theorem addBaseUnit_known {reg : Registry} {st : Units.Store} {n : String} {r : Registry × Units.Store}
     (h : Units.addBaseUnit reg st n = .ok r) : r.2.known = n :: st.known := by
